@@ -639,3 +639,227 @@ Section Generate.
     apply (P gcfgs [] []). split; [constructor | split; [intros r [] | intros p []]].
   Qed.
 End Generate.
+
+(* ------------------------------------------------------------ generate: results *)
+
+Lemma find_recs n l r0 rest : recs n l = r0 :: rest -> find (fun r => beq (c_program r) n) l = Some r0.
+Proof.
+  induction l as [|r l IH]; cbn [recs filter find]; [discriminate|].
+  destruct (beq (c_program r) n); [intros H; injection H as -> _; reflexivity | exact IH].
+Qed.
+
+Lemma Forall2_in_l {A B} (R : A -> B -> Prop) l1 l2 a : Forall2 R l1 l2 -> In a l1 -> exists b, In b l2 /\ R a b.
+Proof.
+  induction 1 as [|x y l1 l2 Hxy _ IH]; intros Hin; [contradiction|].
+  destruct Hin as [<-|Hin]; [exists y; split; [left; reflexivity | exact Hxy]|].
+  destruct (IH Hin) as [b [Hb Hr]]. exists b. split; [right; exact Hb | exact Hr].
+Qed.
+Lemma Forall2_in_r {A B} (R : A -> B -> Prop) l1 l2 b : Forall2 R l1 l2 -> In b l2 -> exists a, In a l1 /\ R a b.
+Proof.
+  induction 1 as [|x y l1 l2 Hxy _ IH]; intros Hin; [contradiction|].
+  destruct Hin as [<-|Hin]; [exists x; split; [left; reflexivity | exact Hxy]|].
+  destruct (IH Hin) as [a [Ha Hr]]. exists a. split; [right; exact Ha | exact Hr].
+Qed.
+
+Definition lists_spec (gcfgs : list chart) (out : list oprog) : Prop :=
+  (forall r, In r gcfgs -> exists o, In o out /\ o_name o = c_program r /\
+      In (cc_of r) (if is_stack r then o_stacks o else o_counters o)) /\
+  (forall o, In o out ->
+      (forall c, In c (o_counters o) -> exists r, In r gcfgs /\ c_program r = o_name o /\ cc_of r = c /\ is_stack r = false) /\
+      (forall c, In c (o_stacks o) -> exists r, In r gcfgs /\ c_program r = o_name o /\ cc_of r = c /\ is_stack r = true) /\
+      (exists r, In r gcfgs /\ c_program r = o_name o)).
+
+Lemma cconf_eqb_eq a b : cconf_eqb a b = true <-> a = b.
+Proof.
+  destruct a as [a1 a2], b as [b1 b2]. unfold cconf_eqb. cbn [fst snd].
+  rewrite andb_true_iff, beq_eq, Z.eqb_eq. split; [intros [-> ->]; reflexivity | intros H; injection H; auto].
+Qed.
+
+Lemma lists_ok_iff gcfgs out : lists_ok gcfgs out = true <-> lists_spec gcfgs out.
+Proof.
+  unfold lists_ok, lists_spec. rewrite andb_true_iff, !forallb_forall. split.
+  - intros [H1 H2]. split.
+    + intros r Hr. specialize (H1 r Hr). apply existsb_exists in H1 as [o [Ho H1]].
+      apply andb_true_iff in H1 as [Hn Hc]. apply beq_eq in Hn.
+      apply existsb_exists in Hc as [c [Hc Hec]]. apply cconf_eqb_eq in Hec. subst c.
+      exists o. unfold is_stack, cc_of. auto.
+    + intros o Ho. specialize (H2 o Ho). apply andb_true_iff in H2 as [H2 H5].
+      apply andb_true_iff in H2 as [H3 H4]. rewrite forallb_forall in H3, H4. split; [|split].
+      * intros c Hc. specialize (H3 c Hc). apply existsb_exists in H3 as [r [Hr H3]].
+        apply andb_true_iff in H3 as [H3 Hs]. apply andb_true_iff in H3 as [Hn He].
+        apply beq_eq in Hn. apply cconf_eqb_eq in He. apply negb_true_iff in Hs. exists r. auto.
+      * intros c Hc. specialize (H4 c Hc). apply existsb_exists in H4 as [r [Hr H4]].
+        apply andb_true_iff in H4 as [H4 Hs]. apply andb_true_iff in H4 as [Hn He].
+        apply beq_eq in Hn. apply cconf_eqb_eq in He. exists r. auto.
+      * apply existsb_exists in H5 as [r [Hr Hn]]. apply beq_eq in Hn. exists r. auto.
+  - intros [H1 H2]. split.
+    + intros r Hr. destruct (H1 r Hr) as [o [Ho [Hn Hc]]]. apply existsb_exists. exists o. split; [exact Ho|].
+      apply andb_true_iff. split; [apply beq_eq; exact Hn|]. apply existsb_exists. exists (cc_of r).
+      split; [exact Hc | apply cconf_eqb_eq; reflexivity].
+    + intros o Ho. destruct (H2 o Ho) as [H3 [H4 [r0 [Hr0 Hn0]]]].
+      apply andb_true_iff. split; [apply andb_true_iff; split|].
+      * apply forallb_forall. intros c Hc. destruct (H3 c Hc) as [r [Hr [Hn [He Hs]]]].
+        apply existsb_exists. exists r. split; [exact Hr|]. unfold is_stack in Hs. subst c. unfold cc_of.
+        rewrite (proj2 (beq_eq _ _) Hn), (proj2 (cconf_eqb_eq _ _) eq_refl), Hs. reflexivity.
+      * apply forallb_forall. intros c Hc. destruct (H4 c Hc) as [r [Hr [Hn [He Hs]]]].
+        apply existsb_exists. exists r. split; [exact Hr|]. unfold is_stack in Hs. subst c. unfold cc_of.
+        rewrite (proj2 (beq_eq _ _) Hn), (proj2 (cconf_eqb_eq _ _) eq_refl), Hs. reflexivity.
+      * apply existsb_exists. exists r0. split; [exact Hr0 | apply beq_eq; exact Hn0].
+Qed.
+
+Section Generate2.
+  Variable is_valid : bool -> bytes -> bool.
+  Variable vcmp : bool -> bytes -> bytes -> comparison.
+  Variable canonical : bytes -> bytes.
+  Variable prerelease : bytes -> bytes.
+  Hypothesis cmp_trans : forall tc a b c,
+    cmp_le (vcmp tc a b) = true -> cmp_le (vcmp tc b c) = true -> cmp_le (vcmp tc a c) = true.
+  Hypothesis cmp_total : forall tc a b, vcmp tc a b = Gt -> cmp_le (vcmp tc b a) = true.
+  Variable go_versions : list bytes.
+  Variable proxy : list (bytes * list bytes).
+  Variable paddings : list (bytes * padding).
+  Variable patterns : list bytes.
+
+  Notation gen := (generate is_valid vcmp canonical prerelease go_versions proxy paddings patterns).
+  Notation vfor := (versions_for is_valid vcmp canonical prerelease go_versions proxy paddings patterns).
+  Notation fin := (finish_all is_valid vcmp canonical prerelease go_versions proxy paddings patterns).
+
+  Definition out_of (p : prog) (o : oprog) : Prop :=
+    o_name o = p_name p /\ o_counters o = p_counters p /\ o_stacks o = p_stacks p /\ vfor p = VOk (o_versions o).
+
+  Lemma finish_all_ok ps : forall out, fin ps = GOk out -> Forall2 out_of ps out.
+  Proof.
+    induction ps as [|p ps IH]; intros out H; cbn [finish_all] in H.
+    - injection H as <-. constructor.
+    - destruct (vfor p) as [| |vs] eqn:Ev; destruct (fin ps) as [| |out'] eqn:Ef; try discriminate.
+      injection H as <-. constructor; [|apply IH; reflexivity].
+      unfold out_of. cbn [o_name o_counters o_stacks o_versions]. auto.
+  Qed.
+
+  Lemma gen_ok gcfgs out : gen gcfgs = GOk out ->
+    exists out0, Forall2 out_of (group vcmp gcfgs) out0 /\ (forall o, In o out <-> In o out0)
+                 /\ forallb (validate is_valid) gcfgs = true.
+  Proof.
+    unfold generate. destruct (forallb (validate is_valid) gcfgs) eqn:Ev; [|discriminate].
+    destruct (fin (group vcmp gcfgs)) as [| |out0] eqn:Ef; try discriminate.
+    intros H. injection H as <-. exists out0. split; [apply finish_all_ok; exact Ef|].
+    split; [intros o; apply sort_by_in | reflexivity].
+  Qed.
+
+  Theorem generate_lists gcfgs out : gen gcfgs = GOk out -> lists_spec gcfgs out.
+  Proof.
+    intros H. destruct (gen_ok gcfgs out H) as [out0 [HF [Hin _]]].
+    destruct (group_inv vcmp cmp_trans cmp_total gcfgs) as [_ [Hcov Hok]].
+    split.
+    - intros r Hr. destruct (Hcov r Hr) as [p [Hp Hn]].
+      destruct (Forall2_in_l _ _ _ p HF Hp) as [o [Ho [On [Oc [Os _]]]]].
+      exists o. split; [apply Hin; exact Ho|]. split; [congruence|].
+      destruct (Hok p Hp) as [_ [Pc [Ps _]]].
+      assert (In r (recs (p_name p) gcfgs)) as Hrec.
+      { unfold recs. apply filter_In. split; [exact Hr | apply beq_eq; congruence]. }
+      destruct (is_stack r) eqn:Es.
+      + rewrite Os, Ps. apply in_map. apply filter_In. auto.
+      + rewrite Oc, Pc. apply in_map. apply filter_In. rewrite Es. auto.
+    - intros o Ho. apply Hin in Ho. destruct (Forall2_in_r _ _ _ o HF Ho) as [p [Hp [On [Oc [Os _]]]]].
+      destruct (Hok p Hp) as [Hne [Pc [Ps _]]]. split; [|split].
+      + intros c Hc. rewrite Oc, Pc in Hc. apply in_map_iff in Hc as [r [<- Hr]].
+        apply filter_In in Hr as [Hr Hs]. apply filter_In in Hr as [Hr Hn]. apply beq_eq in Hn.
+        apply negb_true_iff in Hs. exists r. repeat split; try assumption. congruence.
+      + intros c Hc. rewrite Os, Ps in Hc. apply in_map_iff in Hc as [r [<- Hr]].
+        apply filter_In in Hr as [Hr Hs]. apply filter_In in Hr as [Hr Hn]. apply beq_eq in Hn.
+        exists r. repeat split; try assumption. congruence.
+      + destruct (recs (p_name p) gcfgs) as [|r l] eqn:E; [contradiction|].
+        assert (In r (recs (p_name p) gcfgs)) as Hr by (rewrite E; left; reflexivity).
+        apply filter_In in Hr as [Hr Hn]. apply beq_eq in Hn. exists r. split; [exact Hr | congruence].
+  Qed.
+
+  Notation wanted := (wanted vcmp).
+
+  Lemma wanted_recs gcfgs n v :
+    wanted gcfgs n v = existsb (fun r => eligible vcmp (is_toolchain n) (c_version r) v) (recs n gcfgs).
+  Proof. unfold ConfigGen.wanted, recs. rewrite existsb_filter. reflexivity. Qed.
+
+  (* versions of a toolchain program: exactly the valid known Go versions
+     that are not older than the minimum of some record of the program *)
+  Theorem generate_versions_toolchain gcfgs out o : gen gcfgs = GOk out -> In o out ->
+    is_toolchain (o_name o) = true ->
+    o_versions o = filter (fun v => is_valid true v && wanted gcfgs (o_name o) v) go_versions.
+  Proof.
+    intros H Ho Htc. destruct (gen_ok gcfgs out H) as [out0 [HF [Hin _]]].
+    apply Hin in Ho. destruct (Forall2_in_r _ _ _ o HF Ho) as [p [Hp [On [_ [_ Ov]]]]].
+    destruct (group_inv vcmp cmp_trans cmp_total gcfgs) as [_ [_ Hok]].
+    destruct (Hok p Hp) as [_ [_ [_ [_ He]]]].
+    unfold versions_for in Ov. rewrite <- On, Htc in Ov. injection Ov as <-.
+    apply filter_ext. intros v. rewrite wanted_recs, On. rewrite <- He, <- On, Htc. reflexivity.
+  Qed.
+
+  (* versions of a module program: the proxy's versions not older than that
+     minimum, padded *)
+  Theorem generate_versions_module gcfgs out o : gen gcfgs = GOk out -> In o out ->
+    is_toolchain (o_name o) = false ->
+    exists r0 vs pd,
+      find (fun r => beq (c_program r) (o_name o)) gcfgs = Some r0 /\
+      lookup (c_module r0) proxy = Some vs /\ lookup (o_name o) paddings = Some pd /\
+      pad_versions vcmp canonical prerelease (filter (fun v => wanted gcfgs (o_name o) v) vs) patterns pd
+      = Some (o_versions o) /\
+      forall v, In v vs -> wanted gcfgs (o_name o) v = true -> In v (o_versions o).
+  Proof.
+    intros H Ho Htc. destruct (gen_ok gcfgs out H) as [out0 [HF [Hin _]]].
+    apply Hin in Ho. destruct (Forall2_in_r _ _ _ o HF Ho) as [p [Hp [On [_ [_ Ov]]]]].
+    destruct (group_inv vcmp cmp_trans cmp_total gcfgs) as [_ [_ Hok]].
+    destruct (Hok p Hp) as [_ [_ [_ [[r0 [rest [Hr Hm]]] He]]]].
+    unfold versions_for in Ov. rewrite <- On, Htc in Ov.
+    destruct (lookup (p_module p) proxy) as [vs|] eqn:El; [|discriminate].
+    destruct (forallb (is_valid false) vs); [|discriminate].
+    destruct (lookup (o_name o) paddings) as [pd|] eqn:Ep; [|discriminate].
+    destruct (pad_versions vcmp canonical prerelease (filter (eligible vcmp false (p_min p)) vs) patterns pd) as [vout|] eqn:Epad; [|discriminate].
+    injection Ov as <-.
+    assert (forall v, eligible vcmp false (p_min p) v = wanted gcfgs (o_name o) v) as Hw.
+    { intros v. rewrite wanted_recs, On, <- He, <- On, Htc. reflexivity. }
+    exists r0, vs, pd. rewrite On. split; [apply (find_recs _ _ _ _ Hr)|].
+    split; [rewrite <- Hm; exact El|]. split; [reflexivity|].
+    rewrite <- On. split.
+    - rewrite <- Epad. f_equal. apply filter_ext. intros v. symmetry. apply Hw.
+    - intros v Hv Hwv. apply (pad_superset vcmp canonical prerelease _ _ _ _ Epad).
+      apply filter_In. split; [exact Hv | rewrite Hw; exact Hwv].
+  Qed.
+
+  Theorem generate_versions_oracle gcfgs out : gen gcfgs = GOk out ->
+    versions_ok is_valid vcmp go_versions proxy gcfgs out = true.
+  Proof.
+    intros H. unfold versions_ok. apply forallb_forall. intros o Ho.
+    destruct (is_toolchain (o_name o)) eqn:Htc.
+    - rewrite (generate_versions_toolchain gcfgs out o H Ho Htc). apply list_eqb_refl. apply beq_refl.
+    - destruct (generate_versions_module gcfgs out o H Ho Htc) as [r0 [vs [pd [Hf [Hl [_ [_ Hsup]]]]]]].
+      rewrite Hf, Hl.
+      assert (existsb (fun r => beq (c_program r) (o_name o)) gcfgs = true) as ->.
+      { apply existsb_exists. apply find_some in Hf as [Hin Hb]. exists r0. auto. }
+      apply forallb_forall. intros v Hv.
+      destruct (ConfigGen.wanted vcmp gcfgs (o_name o) v) eqn:Ew; [|reflexivity].
+      cbn [negb orb]. apply mem_in. apply Hsup; assumption.
+  Qed.
+
+  Theorem generate_lists_oracle gcfgs out : gen gcfgs = GOk out -> lists_ok gcfgs out = true.
+  Proof. intros H. apply lists_ok_iff. apply generate_lists. exact H. Qed.
+
+  (* the least-minimum reading of `wanted`: a version is wanted iff it is not
+     older than a least element of the program's minimums ("" least of all) *)
+  Definition least_min (gcfgs : list chart) (n m : bytes) : Prop :=
+    (exists r, In r gcfgs /\ c_program r = n /\ c_version r = m) /\
+    forall r, In r gcfgs -> c_program r = n ->
+      is_empty m = true \/ (is_empty (c_version r) = false /\ cmp_le (vcmp (is_toolchain n) m (c_version r)) = true).
+
+  Theorem wanted_iff_not_older_than_least gcfgs n m v : least_min gcfgs n m ->
+    wanted gcfgs n v = eligible vcmp (is_toolchain n) m v.
+  Proof.
+    intros [[r0 [Hr0 [Hn0 Hm0]]] Hleast]. unfold ConfigGen.wanted.
+    destruct (eligible vcmp (is_toolchain n) m v) eqn:Em.
+    - apply existsb_exists. exists r0. split; [exact Hr0|]. rewrite (proj2 (beq_eq _ _) Hn0), Hm0, Em. reflexivity.
+    - destruct (existsb _ gcfgs) eqn:Ex; [|reflexivity]. exfalso.
+      apply existsb_exists in Ex as [r [Hr Hx]]. apply andb_true_iff in Hx as [Hn He]. apply beq_eq in Hn.
+      unfold ConfigGen.eligible in Em, He. apply orb_false_iff in Em as [Em1 Em2].
+      destruct (Hleast r Hr Hn) as [Hemp | [Hne Hle]]; [congruence|].
+      rewrite Hne in He. cbn [orb] in He.
+      rewrite (cmp_trans _ _ _ _ Hle He) in Em2. discriminate.
+  Qed.
+End Generate2.
